@@ -4,7 +4,8 @@ check of the property it breaks, expect a VIOLATION, undo the change straight af
 
   tools/seedregress.py [seed-id ...]        (default: all of /verif/seeded/*)
 
-Never run while a background sweep uses /repo. Prints one line per change; exit 1 if one is missed.
+Never run while a background sweep uses /repo — or run it on scratch copies (tools/regress-isolated.sh),
+which leaves /repo and /verif alone. Prints one line per change; exit 1 if one is missed.
 """
 import json, os, re, subprocess, sys, shutil
 
@@ -13,10 +14,13 @@ def sh(cmd, cwd=None):
     p = subprocess.run(cmd, shell=True, cwd=cwd, env=e, stdout=subprocess.PIPE, stderr=subprocess.STDOUT, text=True)
     return p.returncode, p.stdout
 
+REPO = os.environ.get("SEEDREGRESS_REPO", "/repo")
+VERIF = os.environ.get("SEEDREGRESS_VERIF", "/verif")
+
 def main():
     root = "/verif/seeded"
     ids = sys.argv[1:] or sorted(os.listdir(root))
-    rc, out = sh("git -C /repo status --short")
+    rc, out = sh("git -C %s status --short" % REPO)
     if out.strip():
         print("/repo is not clean:\n" + out); return 2
     missed = []
@@ -24,14 +28,14 @@ def main():
         meta = json.load(open(os.path.join(root, sid, "meta.json")))
         prop = meta["breaks_property"]
         patch = os.path.join(root, sid, "patch.diff")
-        rc, out = sh("git -C /repo apply %s" % patch)
+        rc, out = sh("git -C %s apply %s" % (REPO, patch))
         if rc:
             print("%-50s patch no longer applies: %s" % (sid, out.strip()[:200])); missed.append(sid); continue
         try:
-            rc, out = sh("./check %s quick 2>&1 | grep -v '^KNOWN-FINDING' | cut -c1-300" % prop, cwd="/verif")
+            rc, out = sh("./check %s quick 2>&1 | grep -v '^KNOWN-FINDING' | cut -c1-300" % prop, cwd=VERIF)
         finally:
-            sh("git -C /repo checkout -- .")
-            shutil.rmtree("/verif/replays", ignore_errors=True)
+            sh("git -C %s checkout -- ." % REPO)
+            shutil.rmtree(os.path.join(VERIF, "replays"), ignore_errors=True)
         clauses = sorted(set(re.findall(r"^\s+(C\d\d\.[a-z-]+):", out, re.M)))
         hit = "VIOLATION property=%s" % prop in out
         m = re.search(r"violations: (\d+)", out)
